@@ -233,6 +233,31 @@ theorem eq_is_identity_on_exact_values (a b : Value) (ha : a.exact = true) (hb :
     Value.peq a b = true ↔ a = b :=
   peq_iff_eq a b ha hb
 
+/-- `int(decimal)` truncates toward zero: the result `k` is the unique integer with `value = k + fraction`, the fraction
+    having the sign of the value and magnitude below one (in units of `10^-scale`: `num = k·10^scale + r`, `|r| < 10^scale`,
+    `r` of the sign of `num`) — never rounding up or to even -/
+theorem int_of_decimal_truncates (o : Oracle) (d : Dec) : ∃ k r : Int,
+    applyUn o .toInt (.dec d) = .ok (.int k) ∧ d.num = k * 10 ^ d.scale + r ∧ r.natAbs < 10 ^ d.scale ∧
+    ((0 ≤ d.num ∧ 0 ≤ r) ∨ (d.num ≤ 0 ∧ r ≤ 0)) := by
+  have hp : (0 : Int) < 10 ^ d.scale := Int.pow_pos (by decide)
+  refine ⟨Int.tdiv d.num (10 ^ d.scale), Int.tmod d.num (10 ^ d.scale), by simp [applyUn, Impl.toInt, Dec.toInt], ?_, ?_, ?_⟩
+  · have := Int.mul_tdiv_add_tmod d.num (10 ^ d.scale)
+    rw [Int.mul_comm] at this; exact this.symm
+  · rw [Int.natAbs_tmod]
+    have h10 : ((10 : Int) ^ d.scale).natAbs = 10 ^ d.scale := by
+      rw [Int.natAbs_pow]; rfl
+    rw [h10]
+    exact Nat.mod_lt _ (Nat.pow_pos (by decide))
+  · by_cases h : 0 ≤ d.num
+    · exact Or.inl ⟨h, Int.tmod_nonneg _ h⟩
+    · right
+      have hn : d.num ≤ 0 := by omega
+      refine ⟨hn, ?_⟩
+      have h2 : 0 ≤ -d.num := by omega
+      have := Int.tmod_nonneg (10 ^ d.scale) h2
+      rw [Int.neg_tmod] at this
+      omega
+
 /-! non-vacuity -/
 example : applyBin Oracle.empty .sub (.int 7) (.int 9) = .ok (.int (-2)) := by decide
 example : applyBin Oracle.empty .rem (.int (-7)) (.int 2) = .ok (.int (-1)) := by decide
@@ -247,5 +272,8 @@ example : Str.isInfix "".toList "abc".toList = true ∧ Str.isInfix "bc".toList 
 example : applyUn Oracle.empty .toInt (.str "-12".toList) = .ok (.int (-12)) ∧ applyUn Oracle.empty .toInt (.str " 12".toList) = .err (.invalidCast (.str " 12".toList)) := by decide
 example : (Value.vec [.int 1, .map [("a".toList, .str "x".toList)], .none]).exact = true := by decide
 example : Value.peq (.vec [.dec ⟨false, 10, 1⟩]) (.vec [.dec ⟨false, 100, 2⟩]) = true := by decide   -- d1.0 == d1.00: numeric, not identity
+example : applyUn Oracle.empty .toInt (.dec ⟨true, 199, 2⟩) = .ok (.int (-1)) := by decide   -- int(d-1.99) = -1
+example : applyUn Oracle.empty .toInt (.dec ⟨false, 25, 1⟩) = .ok (.int 2) := by decide      -- int(d2.5) = 2
+
 
 end Reval.C02
